@@ -264,6 +264,13 @@ def run(ctx, report: Report) -> None:
     from .sem import no_tree_recursion_rule
     no_tree_recursion_rule(ctx, r9)
 
+    # names are compared exactly, up to ASCII case in HTML trees: the case table (document flavours, foreign elements, non-ASCII letters)
+    from .e2ematch import case_rules_table
+    case_rules_table(ctx, r9)
+
+    from .sem import util_lower_table
+    util_lower_table(ctx, r9)
+
 
 
 def comma_reset_rule(ctx, r7):
